@@ -361,6 +361,76 @@ impl Cat for TupStrU16 {
     }
 }
 
+/// Both sides keep state (the `Err` side of `ResStrU8` is a stateless mirror region: what `ResultRegion` does to its
+/// `errs` half in `clear`, `clone_from`, `reserve_*`, `merge_regions` would go unobserved there).
+pub struct ResOwnOwn;
+impl Cat for ResOwnOwn {
+    type R = ResultRegion<OwnedRegion<u8>, OwnedRegion<u8>>;
+    type V = Result<Bytes<N>, Bytes<N>>;
+    fn any() -> Self::V {
+        let b = Bytes::any();
+        if sym::bool() {
+            Ok(b)
+        } else {
+            Err(b)
+        }
+    }
+    fn push(r: &mut Self::R, v: &Self::V) -> Result<(usize, usize), (usize, usize)> {
+        match v {
+            Ok(b) => r.push(Ok::<&[u8], &[u8]>(b.as_slice())),
+            Err(b) => r.push(Err::<&[u8], &[u8]>(b.as_slice())),
+        }
+    }
+    fn check(r: &Self::R, idx: Result<(usize, usize), (usize, usize)>, v: &Self::V, asp: Asp) {
+        match (r.index(idx), v) {
+            (Ok(item), Ok(b)) => check_bytes(item, b, asp),
+            (Err(item), Err(b)) => check_bytes(item, b, asp),
+            _ => assert!(false, "ITEM: Result variant differs from the pushed value"),
+        }
+    }
+    fn model_eq(a: &Self::V, b: &Self::V) -> bool {
+        match (a, b) {
+            (Ok(a), Ok(b)) | (Err(a), Err(b)) => a.as_slice() == b.as_slice(),
+            _ => false,
+        }
+    }
+    fn payload(v: &Self::V) -> usize {
+        match v {
+            Ok(b) | Err(b) => b.len,
+        }
+    }
+    fn idx_eq(a: Result<(usize, usize), (usize, usize)>, b: Result<(usize, usize), (usize, usize)>) -> bool {
+        a == b
+    }
+}
+
+/// Both halves keep state (see `ResOwnOwn`).
+pub struct TupOwnOwn;
+impl Cat for TupOwnOwn {
+    type R = TupleABRegion<OwnedRegion<u8>, OwnedRegion<u8>>;
+    type V = (Bytes<N>, Bytes<N>);
+    fn any() -> Self::V {
+        (Bytes::any(), Bytes::any())
+    }
+    fn push(r: &mut Self::R, v: &Self::V) -> ((usize, usize), (usize, usize)) {
+        r.push((v.0.as_slice(), v.1.as_slice()))
+    }
+    fn check(r: &Self::R, idx: ((usize, usize), (usize, usize)), v: &Self::V, asp: Asp) {
+        let (a, b) = r.index(idx);
+        check_bytes(a, &v.0, asp);
+        check_bytes(b, &v.1, asp);
+    }
+    fn model_eq(a: &Self::V, b: &Self::V) -> bool {
+        a.0.as_slice() == b.0.as_slice() && a.1.as_slice() == b.1.as_slice()
+    }
+    fn payload(v: &Self::V) -> usize {
+        v.0.len + v.1.len
+    }
+    fn idx_eq(a: ((usize, usize), (usize, usize)), b: ((usize, usize), (usize, usize))) -> bool {
+        a == b
+    }
+}
+
 /// Generic slice-of-bytes check for `ReadSlice` over a `MirrorRegion<u8>`.
 macro_rules! check_read_slice_u8 {
     ($item:expr, $v:expr, $asp:expr) => {{
